@@ -166,3 +166,301 @@ macro_rules! k_predict_total {
 k_predict_total!(k_predict_total_i32_n4_o2, i32, 4, 2, 6);
 k_predict_total!(k_predict_total_i64_n4_o2, i64, 4, 2, 6);
 k_predict_total!(k_predict_total_i32_n3_o0, i32, 3, 0, 5);
+
+// ------------------------------------------------------------------ read_subframe (valid streams)
+//
+// contract (RFC 9639 §9.2): for the RFC coding of samples x[0..n] (each fitting bps - wasted bits)
+// as a CONSTANT / VERBATIM / FIXED(order) / LPC(order, precision, shift, coefficients) subframe with
+// `wasted` wasted bits:  Ok(()), channel[i] == x[i] << wasted, exactly the coding consumed.
+fn sbc<const MAX: u32>(bits: u32) -> SignedBitCount<MAX> {
+    match SignedBitCount::<MAX>::try_from(bits) {
+        Ok(c) => c,
+        Err(_) => {
+            kani::assume(false);
+            unreachable!()
+        }
+    }
+}
+
+#[derive(Copy, Clone)]
+enum SubKind {
+    Constant,
+    Verbatim,
+    Fixed,
+    Lpc,
+}
+
+macro_rules! k_read_subframe_valid {
+    ($name:ident, $max:expr, $bpslo:expr, $t:ty, $n:expr, $kind:expr, [$($c:expr),*], $has_wasted:expr,
+     $method:expr, $po:expr, [$($pk:expr),*], $unw:expr) => {
+        #[kani::proof]
+        #[kani::unwind($unw)]
+        pub(crate) fn $name() {
+            let c: &[i64] = &[$($c),*];
+            let order = c.len();
+            let kinds = [$($pk),*];
+            let bps: u32 = kani::any();
+            kani::assume(bps >= $bpslo && bps <= $max);
+            let wasted: u32 = if $has_wasted { kani::any() } else { 0 };
+            kani::assume(wasted < bps);
+            if $has_wasted { kani::assume(wasted >= 1); }
+            let eff = bps - wasted;
+            let mut x = [0i64; $n];
+            let mut i = 0;
+            while i < $n { x[i] = any_i64_within(eff); i += 1; }
+            let mut params = [0u32; 8];
+            let mut i = 0;
+            while i < kinds.len() { params[i] = kani::any(); kani::assume(params[i] <= 31); i += 1; }
+            let mut tape: Tape<24> = Tape::new();
+            match $kind {
+                SubKind::Constant => {
+                    let mut i = 1;
+                    while i < $n { kani::assume(x[i] == x[0]); i += 1; }
+                    specenc::gen_subframe_header(&mut tape, specenc::T_CONSTANT, $has_wasted, wasted);
+                    tape.preload(K_S, eff, x[0] as u64);
+                }
+                SubKind::Verbatim => {
+                    specenc::gen_subframe_header(&mut tape, specenc::T_VERBATIM, $has_wasted, wasted);
+                    let mut i = 0;
+                    while i < $n { tape.preload(K_S, eff, x[i] as u64); i += 1; }
+                }
+                SubKind::Fixed => {
+                    specenc::gen_subframe_header(&mut tape, specenc::t_fixed(order as u32), $has_wasted, wasted);
+                    let ok = specenc::gen_predicted(&mut tape, eff, order, c, 0, None, &x, $method, $po, &kinds, &params);
+                    kani::assume(ok);
+                }
+                SubKind::Lpc => {
+                    let precision: u32 = kani::any();
+                    kani::assume(precision >= 1 && precision <= 15);
+                    let mut j = 0;
+                    while j < order { kani::assume(spec::fits(c[j], precision)); j += 1; }
+                    let shift: u32 = kani::any();
+                    kani::assume(shift <= 15);
+                    specenc::gen_subframe_header(&mut tape, specenc::t_lpc(order as u32), $has_wasted, wasted);
+                    let ok = specenc::gen_predicted(&mut tape, eff, order, c, shift, Some((precision, shift)), &x, $method, $po, &kinds, &params);
+                    kani::assume(ok);
+                }
+            }
+            let mut out: [$t; $n] = kani::any();
+            let res = read_subframe::<$max, _, $t>(&mut tape, sbc::<$max>(bps), &mut out);
+            vk_assert!(!tape.shape_mismatch, "read_subframe: field grammar differs from RFC 9639 9.2");
+            vk_assert!(res.is_ok(), "read_subframe rejected a valid subframe");
+            let mut i = 0;
+            while i < $n {
+                vk_assert!(i64::from(out[i]) == x[i] << wasted, "read_subframe: decoded sample differs from the coded sample");
+                i += 1;
+            }
+            vk_assert!(tape.consumed_all(), "read_subframe did not consume exactly the subframe");
+            kani::cover!(res.is_ok(), "valid subframe decoded");
+        }
+    };
+}
+k_read_subframe_valid!(k_sub_valid_constant_w0, 32, 1, i32, 3, SubKind::Constant, [], false, 0, 0, [Rice], 5);
+k_read_subframe_valid!(k_sub_valid_constant_w, 32, 1, i32, 3, SubKind::Constant, [], true, 0, 0, [Rice], 5);
+k_read_subframe_valid!(k_sub_valid_verbatim_w0, 32, 1, i32, 3, SubKind::Verbatim, [], false, 0, 0, [Rice], 5);
+k_read_subframe_valid!(k_sub_valid_verbatim_w, 32, 1, i32, 3, SubKind::Verbatim, [], true, 0, 0, [Rice], 5);
+k_read_subframe_valid!(k_sub_valid_verbatim33, 33, 33, i64, 2, SubKind::Verbatim, [], true, 0, 0, [Rice], 4);
+k_read_subframe_valid!(k_sub_valid_fixed0, 32, 1, i32, 2, SubKind::Fixed, [], false, 0, 1, [Rice, Escape], 5);
+k_read_subframe_valid!(k_sub_valid_fixed1_w, 32, 1, i32, 3, SubKind::Fixed, [1], true, 1, 0, [Rice], 5);
+k_read_subframe_valid!(k_sub_valid_lpc1, 32, 1, i32, 3, SubKind::Lpc, [-3], false, 0, 0, [Rice], 5);
+
+// ------------------------------------------------------------------ read_subframe, modular
+//
+// For predictor orders >= 2 the whole chain (Rice decode -> prediction) does not finish in CBMC
+// (measured: > 10 min for order 2, n = 4).  The obligation is therefore split the way modular
+// verification prescribes: `read_residuals` is replaced by its contract (discharged separately by
+// the k_res_valid_* / k_res_total_* obligations): "called once with this predictor order and a
+// slice of block - order residuals; on Ok the slice holds the coded residuals".  What is proved
+// here is everything read_subframe / read_fixed_subframe / read_lpc_subframe do around that call.
+use std::sync::atomic::{AtomicI64, AtomicUsize, Ordering::Relaxed};
+static G_RES: [AtomicI64; 8] = [const { AtomicI64::new(0) }; 8];
+static G_ORDER: AtomicUsize = AtomicUsize::new(usize::MAX);
+static G_LEN: AtomicUsize = AtomicUsize::new(usize::MAX);
+static G_CALLS: AtomicUsize = AtomicUsize::new(0);
+static G_FAIL: AtomicUsize = AtomicUsize::new(0);
+
+fn stub_read_residuals<R: BitRead, I: SignedInteger>(
+    _reader: &mut R,
+    predictor_order: usize,
+    residuals: &mut [I],
+) -> Result<(), Error> {
+    G_ORDER.store(predictor_order, Relaxed);
+    G_LEN.store(residuals.len(), Relaxed);
+    G_CALLS.fetch_add(1, Relaxed);
+    if G_FAIL.load(Relaxed) != 0 {
+        return Err(Error::InvalidPartitionOrder);
+    }
+    let mut i = 0;
+    while i < residuals.len() {
+        residuals[i] = I::from_i64(G_RES[i].load(Relaxed));
+        i += 1;
+    }
+    Ok(())
+}
+
+macro_rules! k_read_subframe_modular {
+    ($name:ident, $max:expr, $bpslo:expr, $t:ty, $n:expr, $kind:expr, [$($c:expr),*], $has_wasted:expr, $unw:expr) => {
+        #[kani::proof]
+        #[kani::unwind($unw)]
+        #[kani::stub(read_residuals, stub_read_residuals)]
+        pub(crate) fn $name() {
+            let c: &[i64] = &[$($c),*];
+            let order = c.len();
+            let bps: u32 = kani::any();
+            kani::assume(bps >= $bpslo && bps <= $max);
+            let wasted: u32 = if $has_wasted { kani::any() } else { 0 };
+            kani::assume(wasted < bps);
+            if $has_wasted { kani::assume(wasted >= 1); }
+            let eff = bps - wasted;
+            let mut x = [0i64; $n];
+            let mut i = 0;
+            while i < $n { x[i] = any_i64_within(eff); i += 1; }
+            let mut tape: Tape<40> = Tape::new();
+            let mut shift: u32 = 0;
+            match $kind {
+                SubKind::Fixed => {
+                    specenc::gen_subframe_header(&mut tape, specenc::t_fixed(order as u32), $has_wasted, wasted);
+                    let mut i = 0;
+                    while i < order { tape.preload(K_S, eff, x[i] as u64); i += 1; }
+                }
+                _ => {
+                    let precision: u32 = kani::any();
+                    kani::assume(precision >= 1 && precision <= 15);
+                    let mut j = 0;
+                    while j < order { kani::assume(spec::fits(c[j], precision)); j += 1; }
+                    shift = kani::any();
+                    kani::assume(shift <= 15);
+                    specenc::gen_subframe_header(&mut tape, specenc::t_lpc(order as u32), $has_wasted, wasted);
+                    let mut i = 0;
+                    while i < order { tape.preload(K_S, eff, x[i] as u64); i += 1; }
+                    tape.preload(K_U, 4, (precision - 1) as u64);
+                    tape.preload(K_S, 5, shift as u64);
+                    let mut j = 0;
+                    while j < order { tape.preload(K_S, precision, c[j] as u64); j += 1; }
+                }
+            }
+            // the residuals the (replaced) callee delivers: the RFC residuals of x
+            let mut i = order;
+            while i < $n {
+                let r = specenc::spec_residual(&x, i, order, c, shift);
+                kani::assume(r > i32::MIN as i64 && r <= i32::MAX as i64);
+                G_RES[i - order].store(r, Relaxed);
+                i += 1;
+            }
+            let callee_fails: bool = kani::any();
+            G_FAIL.store(callee_fails as usize, Relaxed);
+            let mut out: [$t; $n] = kani::any();
+            let res = read_subframe::<$max, _, $t>(&mut tape, sbc::<$max>(bps), &mut out);
+            vk_assert!(!tape.shape_mismatch, "read_subframe: field grammar differs from RFC 9639 9.2");
+            vk_assert!(G_CALLS.load(Relaxed) == 1, "read_residuals must be called exactly once per predicted subframe");
+            vk_assert!(G_ORDER.load(Relaxed) == order, "read_residuals called with the wrong predictor order");
+            vk_assert!(G_LEN.load(Relaxed) == $n - order, "read_residuals called with the wrong residual count");
+            vk_assert!(tape.consumed_all(), "read_subframe did not consume exactly the subframe");
+            if callee_fails {
+                vk_assert!(res.is_err(), "error from read_residuals swallowed");
+            } else {
+                vk_assert!(res.is_ok(), "read_subframe rejected a valid subframe");
+                let mut i = 0;
+                while i < $n {
+                    vk_assert!(i64::from(out[i]) == x[i] << wasted, "read_subframe: decoded sample differs from the coded sample");
+                    i += 1;
+                }
+            }
+            kani::cover!(res.is_ok(), "valid subframe decoded");
+        }
+    };
+}
+k_read_subframe_modular!(k_sub_mod_fixed2, 32, 1, i32, 4, SubKind::Fixed, [2, -1], false, 6);
+k_read_subframe_modular!(k_sub_mod_fixed3_w, 32, 1, i32, 5, SubKind::Fixed, [3, -3, 1], true, 7);
+k_read_subframe_modular!(k_sub_mod_fixed4, 32, 1, i32, 6, SubKind::Fixed, [4, -6, 4, -1], false, 8);
+k_read_subframe_modular!(k_sub_mod_fixed2_33, 33, 33, i64, 4, SubKind::Fixed, [2, -1], false, 6);
+k_read_subframe_modular!(k_sub_mod_lpc2_w, 16, 16, i32, 4, SubKind::Lpc, [16383, -16384], true, 6);
+k_read_subframe_modular!(k_sub_mod_lpc3, 24, 24, i32, 5, SubKind::Lpc, [1042, -399, -75], false, 7);
+k_read_subframe_modular!(k_sub_mod_lpc3_33, 33, 33, i64, 5, SubKind::Lpc, [1042, -399, -75], false, 7);
+
+// ------------------------------------------------------------------ read_subframe (all inputs), modular
+//
+// contract: for every field sequence and read fault, with read_residuals replaced by "any result":
+//   never panics; read fault => Err; pad bit 1 / reserved type / wasted >= bps / order > block => Err
+fn stub_read_residuals_any<R: BitRead, I: SignedInteger>(
+    _reader: &mut R,
+    _predictor_order: usize,
+    residuals: &mut [I],
+) -> Result<(), Error> {
+    G_CALLS.fetch_add(1, Relaxed);
+    if kani::any() {
+        return Err(Error::InvalidPartitionOrder);
+    }
+    let mut i = 0;
+    while i < residuals.len() {
+        // any value read_residuals can deliver: 32-bit Rice or <= 31-bit escaped residuals
+        let v: i32 = kani::any();
+        residuals[i] = I::from_i64(v as i64);
+        i += 1;
+    }
+    Ok(())
+}
+
+macro_rules! k_read_subframe_total {
+    ($name:ident, $max:expr, $t:ty, $n:expr, $tlo:expr, $thi:expr, $unw:expr) => {
+        #[kani::proof]
+        #[kani::unwind($unw)]
+        #[kani::stub(read_residuals, stub_read_residuals_any)]
+        pub(crate) fn $name() {
+            let mut tape: Tape<4> = Tape::faulty();
+            let pad: u64 = kani::any();
+            let ty: u64 = kani::any();
+            kani::assume(pad <= 1 && ty >= $tlo && ty <= $thi);
+            tape.preload(K_U, 1, pad);
+            tape.preload(K_U, 6, ty);
+            tape.record = false;
+            let bps: u32 = kani::any();
+            kani::assume(bps >= 1 && bps <= $max);
+            let mut out: [$t; $n] = kani::any();
+            let res = read_subframe::<$max, _, $t>(&mut tape, sbc::<$max>(bps), &mut out);
+            if tape.failed {
+                vk_assert!(res.is_err(), "read fault / EOF swallowed by read_subframe");
+            }
+            if pad == 1 {
+                vk_assert!(res.is_err(), "subframe with non-zero padding bit accepted");
+            }
+            let reserved = (ty >= 2 && ty <= 7) || (ty >= 13 && ty <= 31);
+            if reserved {
+                vk_assert!(res.is_err(), "reserved subframe type accepted");
+            }
+            if ty >= 8 && ty <= 12 && (ty - 8) as usize > $n {
+                vk_assert!(res.is_err(), "FIXED order larger than the block accepted");
+            }
+            if ty >= 32 && (ty - 31) as usize > $n {
+                vk_assert!(res.is_err(), "LPC order larger than the block accepted");
+            }
+            kani::cover!(res.is_ok(), "some subframe accepted");
+        }
+    };
+}
+k_read_subframe_total!(k_sub_total_const_verbatim, 32, i32, 3, 0, 1, 5);
+k_read_subframe_total!(k_sub_total_reserved, 32, i32, 3, 2, 31, 5);
+k_read_subframe_total!(k_sub_total_fixed, 32, i32, 3, 8, 12, 5);
+k_read_subframe_total!(k_sub_total_lpc, 32, i32, 3, 32, 63, 5);
+k_read_subframe_total!(k_sub_total_lpc_wide, 33, i64, 3, 32, 63, 5);
+k_read_subframe_total!(k_sub_total_fixed_wide, 33, i64, 3, 8, 12, 5);
+
+// wasted bits: ExcessiveWastedBits iff wasted >= bps
+#[kani::proof]
+#[kani::unwind(4)]
+pub(crate) fn k_sub_wasted_excess() {
+    let mut tape: Tape<8> = Tape::new();
+    let wasted: u32 = kani::any();
+    kani::assume(wasted >= 1);
+    specenc::gen_subframe_header(&mut tape, specenc::T_VERBATIM, true, wasted);
+    tape.record = false;
+    let bps: u32 = kani::any();
+    kani::assume(bps >= 1 && bps <= 32);
+    let mut out: [i32; 1] = kani::any();
+    let res = read_subframe::<32, _, i32>(&mut tape, sbc::<32>(bps), &mut out);
+    if wasted >= bps {
+        vk_assert!(matches!(res, Err(Error::ExcessiveWastedBits)), "wasted bits >= bits-per-sample must be rejected");
+    } else {
+        vk_assert!(res.is_ok(), "legal wasted-bits count rejected");
+    }
+}
